@@ -92,18 +92,23 @@ func opt(i int) (float64, bool) {
 	return 1.5, true
 }
 
-var colourVals = []color.RGBA{{}, {255, 0, 0, 255}, {0, 255, 0, 255}, {128, 64, 0, 128}}
+// colourVals: 8-bit colours and two 16-bit colours that differ only in the LOW byte of one channel
+// (same after truncation to 8 bits, different in the 3-decimal factor the writer emits: 0.197 vs 0.198).
+var colourVals = []color.Color{color.RGBA{}, color.RGBA{255, 0, 0, 255}, color.RGBA{0, 255, 0, 255}, color.RGBA{128, 64, 0, 128},
+	color.RGBA64{0x3280, 0x8000, 0x1000, 0xffff}, color.RGBA64{0x32c0, 0x8000, 0x1000, 0xffff}}
+
+const nColours = 6
 
 func col(i int) color.Color {
-	if mod(i, 4) == 0 {
+	if mod(i, nColours) == 0 {
 		return nil
 	}
-	return colourVals[mod(i, 4)]
+	return colourVals[mod(i, nColours)]
 }
 
 func colF(i, n int) []float64 {
-	c := colourVals[mod(i, 4)]
-	return []float64{float64(c.R) / 255, float64(c.G) / 255, float64(c.B) / 255, float64(c.A) / 255}[:n]
+	r, g, b, a := colourVals[mod(i, nColours)].RGBA()
+	return []float64{float64(r) / 65535, float64(g) / 65535, float64(b) / 65535, float64(a) / 65535}[:n]
 }
 
 // ---------------------------------------------------------------- canonical content
